@@ -178,8 +178,7 @@ def opBuildSystem : Handler := fun j => do
   | .ok d =>
     match buildSystem parent edges d with
     | .error e => return Json.mkObj [("error", errName e)]
-    | .ok b => return Json.mkObj [("ok", Json.mkObj [("sys", pySysJson b.sys), ("state", ratListJson b.state),
-        ("sys_units", sysJson b.sysUnits), ("net_units", sysJson b.netUnits)])]
+    | .ok b => return Json.mkObj [("ok", Json.mkObj [("sys", pySysJson b.sys), ("state", ratListJson b.state)])]
 
 def buildOps : List (String × Handler) := [("build_system", opBuildSystem)]
 
